@@ -125,6 +125,17 @@ def extra_cells(tier):
         for o in U.ORDERS:
             for pe in U.PERR:
                 out.append(dict(base_cell(op, r, 'garbage', o, False), perr=pe))
+    # the connection was already given up by grpclib's own keepalive timeout (transport closing, unsent data,
+    # connection_lost not delivered yet) when connection_lost / Channel.close come
+    for op, r in NATURAL + [('sm', 'paused'), ('rm', 'paused')]:
+        if op == 'sr':
+            continue                     # no open stream: the keepalive does not ping
+        for e in ('lost', 'close'):
+            for o in U.ORDERS:
+                if op == 'cl' and o == 'before':
+                    continue
+                for d in (False, True):
+                    out.append(dict(base_cell(op, r, e, o, d), pre='keepalive-closed'))
     # GOAWAY and RST_STREAM as CLASSES of frames: every operation at its natural blocking point x both orders
     for op, r in NATURAL:
         for o in U.ORDERS:
@@ -167,6 +178,8 @@ def compare(c, obs, m):
     diff = []
     if m.get('inpaths') != '1':
         diff.append(('inpaths', '-', m.get('inpaths')))
+    if obs['setup'] == 'keepalive-did-not-close':
+        return diff                       # the pre-state could not be set up: not a cell
     if obs['setup'] != m['setup']:
         return diff + [('setup', obs['setup'], m['setup'])]
     if obs['setup'] == 'op-not-blocked':
@@ -269,7 +282,7 @@ def check_cells(ctx, res, cells, compare_model=True):
 def multi_line(spec):
     return ' '.join(['multi', '%d' % spec['paused'], '%d' % spec['window'], '%d' % spec['headers'],
                      spec['event'], '%d' % spec['deadline'], ','.join(spec['ops']) or '-',
-                     ','.join(spec['after']) or '-'])
+                     ','.join(spec.get('mid', [])) or '-', ','.join(spec['after']) or '-'])
 
 
 def compare_multi(ctx, res, batch):
@@ -279,10 +292,12 @@ def compare_multi(ctx, res, batch):
         res.traces += 1
         m = parse_model(ans) if not ans.startswith('DRIVER-ERROR') else {'setup': ans}
         impl = {'setup': out['setup'], 'during': ','.join(d['res'] for d in out['during']) or '-',
+                'blocked': ','.join('%d' % d['blocked'] for d in out['during']) or '-',
                 'after': ','.join(a['res'] for a in out['after']) or '-'}
         if out['setup'] != 'ok':
-            impl['during'] = impl['after'] = '-'
-        diff = [(k, impl[k], m.get(k)) for k in ('setup', 'during', 'after') if impl[k] != m.get(k)]
+            impl['during'] = impl['after'] = impl['blocked'] = '-'
+        diff = [(k, impl[k], m.get(k)) for k in ('setup', 'blocked', 'during', 'after')
+                if impl[k] != m.get(k)]
         if m.get('inpaths') != '1':
             diff.append(('inpaths', '-', m.get('inpaths')))
         if diff:
@@ -297,7 +312,10 @@ def check_multi(ctx, res, spec, batch=None):
         batch.append((spec, out))
     if out['setup'] != 'ok':
         return
-    res.signatures.add(('multi', tuple(spec['ops']), tuple(spec['after']), spec['event'],
+    res.count('multi-tasks:%d' % len(out['during']))
+    for st in spec.get('mid', []):
+        res.count('multi-mid:%s' % st.split('.')[0])
+    res.signatures.add(('multi', tuple(spec['ops']), tuple(spec.get('mid', [])), tuple(spec['after']), spec['event'],
                         tuple(d['res'] for d in out['during']), tuple(a['res'] for a in out['after'])))
     res.sample({'multi': spec, 'observed': out}, limit=10)
     level = 'stream' if spec['event'] in ('rst', 'serr') else 'connection'
@@ -305,8 +323,8 @@ def check_multi(ctx, res, spec, batch=None):
         if d['blocked'] and d['res'] != 'StreamTerminated':
             res.oracle_failures.append({
                 'case': {'multi': spec}, 'observed': out,
-                'what': '%s (one of %d concurrent operations) blocked at %s ended with %s' % (
-                    U.OPNAME[d['op']], len(spec['ops']), spec['event'], d['res']),
+                'what': '%s (one of %d tasks driving the call) blocked at %s ended with %s' % (
+                    U.OPNAME[d['op']], len(out['during']), spec['event'], d['res']),
                 'signature': {'op': d['op'], 'site': 'multi', 'blocked_on': 'multi', 'event_level': level,
                               'order': 'during', 'registered': True,
                               'kind': 'hang' if d['res'] == 'pending' else 'wrong-error'}})
@@ -325,6 +343,18 @@ def check_multi(ctx, res, spec, batch=None):
                           'order': 'during', 'registered': True, 'kind': 'not-prompt'}})
 
 
+def mid_choices(ops, paused, window):
+    """the things that can happen between the start of the operations and the event: (steps, what completes)"""
+    out = [([], [])]
+    if 'rm' in ops and 'ri' not in ops and 'rt' not in ops:
+        out.append((['reply'], ['rm']))
+    if 'sm' in ops and window and not paused:
+        out.append((['credit'], ['sm']))
+    if paused and 'ca' not in ops and not ('sm' in ops and 'en' in ops and not window):
+        out.append((['resume'], [o for o in ops if o == 'en' or (o == 'sm' and not window)]))
+    return out
+
+
 def gen_multi(rng):
     paused = rng.random() < 0.5
     window = rng.random() < 0.6
@@ -337,12 +367,37 @@ def gen_multi(rng):
     ops = [rng.choice(pool) for _ in range(rng.randint(1, 4))]
     # one task per operation kind: two concurrent calls of the same operation race on its flag
     ops = sorted(set(ops), key=ops.index)
+    mid, done = rng.choice(mid_choices(ops, paused, window))
+    mid = list(mid)
+    if done and rng.random() < 0.7:
+        # the task that got through loops: it starts the same operation again (a receiver / sender loop)
+        mid += ['s.' + o for o in done if o in ('rm', 'sm')]
     after = [rng.choice(['sm', 'en', 'ri', 'rm', 'rt', 'ca']) for _ in range(rng.randint(0, 3))]
-    return {'ops': ops, 'after': after, 'paused': paused, 'window': window, 'headers': headers,
+    return {'ops': ops, 'mid': mid, 'after': after, 'paused': paused, 'window': window, 'headers': headers,
             'event': rng.choice(U.EVENTS), 'deadline': rng.random() < 0.3,
             'perr': rng.choice([p for p in U.PERR if not p.endswith('@other')]),
             'goaway': '%d/%s/%s' % (rng.choice(GOAWAY_CODES), rng.choice(GOAWAY_LAST), rng.choice('01')),
             'rst_code': rng.choice(RST_CODES)}
+
+
+def multi_pairs():
+    """one call driven by TWO or THREE tasks: every ordered pairing (entry order matters: the task that entered
+    its guard first may leave it first) of blocking operations x what lets one of them through before the
+    event (with and without that task looping) x every termination event"""
+    kinds = ['sm', 'rm', 'ri', 'en', 'ca']
+    groups = [[a, b] for a in kinds for b in kinds if a != b and {a, b} != {'rm', 'ri'}]
+    groups += [['rm', 'sm', 'en'], ['sm', 'rm', 'ca'], ['en', 'sm', 'rm'], ['ri', 'sm', 'ca']]
+    for ops in groups:
+        paused = 'en' in ops or 'ca' in ops
+        for mid, done in mid_choices(ops, paused, True):
+            variants = [list(mid)]
+            again = ['s.' + o for o in done if o in ('rm', 'sm')]
+            if again:
+                variants.append(list(mid) + again)
+            for m in variants:
+                for e in U.EVENTS:
+                    yield {'ops': ops, 'mid': m, 'after': ['sm', 'rm'], 'paused': paused, 'window': True,
+                           'headers': False, 'event': e, 'deadline': False}
 
 
 def run(ctx):
@@ -379,6 +434,8 @@ def run(ctx):
     res.extra['matrix_setup'] = {k[6:]: v - before.get(k, 0) for k, v in sorted(res.distribution.items())
                                  if k.startswith('setup:') and v - before.get(k, 0)}
     check_cells(ctx, res, extra_cells(ctx.tier))
+    for spec in multi_pairs():
+        check_multi(ctx, res, spec, batch)
     for _ in range(ctx.n(400, 6000)):
         check_multi(ctx, res, gen_multi(ctx.rng), batch)
     compare_multi(ctx, res, batch)
